@@ -1,5 +1,6 @@
 """C08 — gate chains deliver to the far end (structural clauses, DESIGN §4 C08)."""
 from .engine.helpers import *
+import re
 from .C07 import _implicit_message_drops, _consumers, SINK_ADD
 
 EXPLANATION = (
@@ -329,7 +330,13 @@ def r7_delayed_send(ctx):
     if not f:
         return
     # buffering the event: Vec::push on the event buffer, or the buffer's EventSink::add (which pushes: checked by C03.R3)
-    pushes = [s for s in f.calls() if s.name == 'std::vec::Vec::push' or (s.callee == 'des::runtime::event::EventSink::add' and s.argtys and 'std::vec::Vec<' in s.argtys[0])]
+    from .C03 import _buffer_container_types
+    conts = _buffer_container_types(ctx.P)
+    def on_buffer(s):
+        t = re.sub(r"^&\s*('[a-z_]+\s+)?(mut\s+)?", '', s.argtys[0]) if s.argtys else ''
+        return any(t == c for c in conts)
+    pushes = [s for s in f.calls() if s.name == 'std::vec::Vec::push' or (s.callee == 'des::runtime::event::EventSink::add' and s.argtys and 'std::vec::Vec<' in s.argtys[0])
+              or (s.name.split('::')[-1] in ('push', 'push_back') and on_buffer(s))]
     walks = f.calls_to('des::net::runtime::events::MessageExitingConnection::handle_with_sink')
     if not (ctx.floor('delayed push in buf_send_at', len(pushes), 1) and ctx.floor('inline walk in buf_send_at', len(walks), 1)):
         return
@@ -340,7 +347,7 @@ def r7_delayed_send(ctx):
         return None
     ctx.check(cmpnow(pushes[0].b) == 'gt', 'delayed-iff-future', 'a send is buffered as a delayed event iff send_time > now', pushes[0].where(), cmpnow(pushes[0].b))
     ctx.check(cmpnow(walks[0].b) == 'le', 'immediate-iff-now', 'otherwise the gate walk happens immediately', walks[0].where(), cmpnow(walks[0].b))
-    tm = peel(f.expr_operand(pushes[0].args[-1] if pushes[0].name != 'std::vec::Vec::push' else pushes[0].args[1], pushes[0].b, 'T'))
+    tm = peel(f.expr_operand(pushes[0].args[-1] if pushes[0].name.split('::')[-1] not in ('push', 'push_back') else pushes[0].args[1], pushes[0].b, 'T'))
     ctx.check(any(x == ('arg', 2 + 1, 'send_time') or (x[0] == 'arg' and x[2] == 'send_time') for x in walk(tm)), 'delayed-at-send-time', 'the delayed event is scheduled at send_time', pushes[0].where())
 
 
